@@ -197,6 +197,14 @@ def streamFilter (minLen : Nat) (first : List Nat) (line : Bytes) : Bool :=
     | b :: _ => first.contains b
     | [] => false)
 
+/-- `Stream._iter_messages` with a preprocessor: the length test looks at the line as read, the
+preprocessor runs next, the start-delimiter test (`should_parse`) looks at its result -/
+def streamLines (minLen : Nat) (first : List Nat) (pre : Bytes → Bytes) (lines : List Bytes) : List Bytes :=
+  ((lines.filter fun l => decide (l.length > minLen)).map pre).filter fun l =>
+    match l with
+    | b :: _ => first.contains b
+    | [] => false
+
 /-! ## the one-shot path: `decode._assemble_messages` and `AISSentence.decode` -/
 
 /-- the `for msg in args` loop of `_assemble_messages`: collected AIS sentences and the
